@@ -83,6 +83,16 @@ Theorem C41_timeout_logical :
 Proof. split; [exact timeout_not_early|exact timeout_on_own_steps]. Qed.
 Print Assumptions C41_timeout_logical.
 
+(* the resolve phase (before any address is chosen): a Resolver that is still running when the deadline passes is cut by
+   its context and the dial returns at once, without touching the rotation counter or the semaphore — but with the
+   Resolver's error, which is not ErrDialTimeout and has no upstream address.  (A Resolver that ignores its context is
+   outside the model: the dial then waits for it.) *)
+Theorem C41_resolver_deadline : forall c s t dl, tp s t = TDraw dl -> dl <= clock s ->
+  exists s', dstep c s (LResolveDeadline t) = Some s' /\ tp s' t = TDone XResolveErr dl 0 [] (clock s) /\
+             aidx s' = aidx s /\ sem s' = sem s /\ clock s' = clock s.
+Proof. exact resolve_deadline. Qed.
+Print Assumptions C41_resolver_deadline.
+
 (* non-vacuity: Concurrency 1, two dials, the second waits for the semaphore and times out at its deadline *)
 Example C41_ex_semaphore_timeout :
   match drun (mkCfg 1 1) dsinit [LStart 0 160; LDraw 0; LCheck 0; LAcqFast 0; LTick 15; LStart 1 60; LDraw 1; LCheck 1; LAcqFull 1;
